@@ -141,7 +141,7 @@ pub fn random_lt_spec(rng: &mut impl Rng, code: u16) -> Value {
     // the cookie's password-algorithms bit normally agrees with the presence of the list
     let pa = if r(100) < 88 { algs != "none" } else { algs == "none" };
     let ua = r(100) < 30;
-    let dup = r(100) < 8;
+    let dup: Value = match r(100) { 0..=3 => json!(true), 4..=9 => json!("flip"), 10..=13 => json!("algs"), _ => json!(false) };
     json!({"realm":realm,"nonce":nonce,"pa":pa,"ua":ua,"algs":algs,"dup":dup})
 }
 
@@ -231,10 +231,30 @@ impl LtServer {
                     alg = 1;
                 }
             }
-            if lt["dup"].as_bool().unwrap_or(false) {
+            let dupk = if lt["dup"].as_bool().unwrap_or(false) { "plain" } else { lt["dup"].as_str().unwrap_or("") };
+            if !dupk.is_empty() {
                 // duplicated attributes with different content: the first of each must win
                 items.push(Item::Raw(obs::T_REALM, b"dup.realm".to_vec()));
-                items.push(Item::Raw(obs::T_NONCE, b"dup-nonce".to_vec()));
+                match dupk {
+                    "flip" => {
+                        // a second nonce cookie whose security feature bits are the opposite
+                        let mut f = [0u8; 3];
+                        if !lt["pa"].as_bool().unwrap_or(false) { f[0] |= 0x80; }
+                        if !lt["ua"].as_bool().unwrap_or(false) { f[0] |= 0x40; }
+                        items.push(Item::Raw(obs::T_NONCE, format!("{}{}dup{}", COOKIE_PREFIX, b64_3(f), self.counter).into_bytes()));
+                    }
+                    _ => items.push(Item::Raw(obs::T_NONCE, b"dup-nonce".to_vec())),
+                }
+                if m.code == 401 && dupk != "plain" {
+                    // a second PASSWORD-ALGORITHMS list with different content
+                    let other: Vec<u16> = match lt["algs"].as_str().unwrap_or("none") {
+                        "md5" => vec![2], "sha" => vec![1], "md5_sha" => vec![1], "sha_md5" => vec![2],
+                        "none" => vec![], _ => vec![2, 1],
+                    };
+                    if !other.is_empty() {
+                        items.push(Item::Raw(obs::T_PWD_ALGS, obs::password_algorithms_value(&other)));
+                    }
+                }
             }
         }
         obs::lt_key(&cfg.user, &realm, &cfg.password, alg)
